@@ -392,9 +392,10 @@ def main(ctx):
                         'Forward', dict(fixed, Win=2, MaxW=3),
                         ['ChannelsEnd'], expect='ChannelsEnd'))
     # the two teardown rules are needed: without them the properties fail
-    jobs.append(Job('fwd without F11 rule (expected CloseBoth)', 'Forward',
-                    dict(FixLost='FALSE', FixCross='TRUE'), ['CloseBoth'],
-                    expect='CloseBoth'))
+    if not quick:
+        jobs.append(Job('fwd without F11 rule (expected CloseBoth)', 'Forward',
+                        dict(FixLost='FALSE', FixCross='TRUE'), ['CloseBoth'],
+                        expect='CloseBoth'))
     jobs.append(Job('fwd without F12 rule (expected Released)', 'Forward',
                     dict(FixLost='TRUE', FixCross='FALSE', AllowReset='FALSE',
                          Keeps='{"FF"}'),
@@ -402,10 +403,11 @@ def main(ctx):
     jobs.append(Job('fwd sensitivity DropEarly (expected Complete)', 'Forward',
                     dict(DropEarly='TRUE', FixLost='TRUE', FixCross='TRUE'),
                     ['Complete'], expect='Complete'))
-    jobs.append(Job('fwd sensitivity NoEofRelay (expected HalfClose)',
-                    'Forward', dict(NoEofRelay='TRUE', FixLost='TRUE',
-                                    FixCross='TRUE'),
-                    ['HalfClose'], expect='HalfClose'))
+    if not quick:
+        jobs.append(Job('fwd sensitivity NoEofRelay (expected HalfClose)',
+                        'Forward', dict(NoEofRelay='TRUE', FixLost='TRUE',
+                                        FixCross='TRUE'),
+                        ['HalfClose'], expect='HalfClose'))
     if not quick:
         jobs.append(Job('fwd witness early flush', 'Forward',
                         dict(MaxW=2), ['NeverEarlyFlush'],
@@ -429,9 +431,10 @@ def main(ctx):
     jobs.append(Job('listeners sensitivity WirePortZero (expected Routing)',
                     'Listeners', dict(WirePortZero='TRUE'), ['Routing'],
                     expect='Routing'))
-    jobs.append(Job('listeners sensitivity KeepClosed', 'Listeners',
-                    dict(KeepClosed='TRUE'), ['ClosedRefuses'],
-                    expect='ClosedRefuses'))
+    if not quick:
+        jobs.append(Job('listeners sensitivity KeepClosed', 'Listeners',
+                        dict(KeepClosed='TRUE'), ['ClosedRefuses'],
+                        expect='ClosedRefuses'))
     if not quick:
         jobs.append(Job('listeners witness older dynamic listener',
                         'Listeners', {}, ['NeverOlderDynamic'],
@@ -457,13 +460,13 @@ def main(ctx):
     jobs.append(Job('perm sensitivity SkipPermitOpen', 'ForwardPerm',
                     dict(SkipPermitOpen='TRUE'), ['ServedOnlyIfPermitted'],
                     expect='ServedOnlyIfPermitted', workers=1))
-    jobs.append(Job('perm sensitivity SkipCert', 'ForwardPerm',
-                    dict(SkipCert='TRUE'), ['ServedOnlyIfPermitted'],
-                    expect='ServedOnlyIfPermitted', workers=1))
-    jobs.append(Job('perm sensitivity LeakOnCancel', 'ForwardPerm',
-                    dict(LeakOnCancel='TRUE'), ['NoListenerLeft'],
-                    expect='NoListenerLeft', workers=1))
     if not quick:
+        jobs.append(Job('perm sensitivity SkipCert', 'ForwardPerm',
+                        dict(SkipCert='TRUE'), ['ServedOnlyIfPermitted'],
+                        expect='ServedOnlyIfPermitted', workers=1))
+        jobs.append(Job('perm sensitivity LeakOnCancel', 'ForwardPerm',
+                        dict(LeakOnCancel='TRUE'), ['NoListenerLeft'],
+                        expect='NoListenerLeft', workers=1))
         jobs.append(Job('perm witness NeverServed', 'ForwardPerm', {},
                         ['NeverServed'], expect='NeverServed', workers=1))
     # generators: behaviours of the model of the code as it is
